@@ -188,3 +188,8 @@ impl<BE: DecryptWriteBackend> Indexer<BE> {
             .is_some_and(|indexed| indexed.contains(id))
     }
 }
+
+// verification hook (guard: cfg(kani), set only by the Kani compiler): harnesses live in /verif/kani
+#[cfg(kani)]
+#[path = "/verif/kani/indexer.rs"]
+mod verif_kani;
